@@ -221,3 +221,21 @@ Proof. unfold ctor. cbn [fold_left run_c]. unfold construct, one_live. cbn. repe
 (* without the value-initialisation in front, emplace<0>() would run a destructor on garbage *)
 Theorem variant_ctor_needs_zero : exists np t0, ubad (ctor std_dshape std_emplace [CTag0; CEmplace0] np t0) <> 0.
 Proof. exists [true], 7. vm_compute. discriminate. Qed.
+
+(* =====================================================  delimiter header test, width-parametric  ===================================================== *)
+From Coq Require Import NArith.
+(* the test rejects exactly the headers that exceed the remaining bytes - for every size_t width from hchk_min_width on: 32 bits for the
+   division form, 35 for the multiplication form (a 32-bit header times 8) *)
+Theorem hdr_check_exact (W : N) k (h size : N) : (hchk_min_width k <= W)%N -> (h < 2 ^ 32)%N ->
+  hchk_eval W k h size = (size / 8 <? h)%N.
+Proof.
+  intros HW Hh. destruct k; cbn [hchk_eval hchk_min_width] in *; [|reflexivity].
+  assert (H35 : (2 ^ 35 <= 2 ^ W)%N) by (apply N.pow_le_mono_r; lia).
+  rewrite N.mod_small by (change (2 ^ 35)%N with (8 * 2 ^ 32)%N in H35; lia).
+  pose proof (N.div_mod size 8 ltac:(lia)) as Hd. pose proof (N.mod_lt size 8 ltac:(lia)) as Hm.
+  destruct (N.ltb_spec size (8 * h)); destruct (N.ltb_spec (size / 8) h); try reflexivity; exfalso; lia.
+Qed.
+
+(* D1: with a 32-bit size_t the multiplication form ACCEPTS header 0x20000001 in front of 2 bytes *)
+Theorem hdr_mul_w32_refuted : hchk_eval 32 HMulCmp 536870913 16 = false /\ (16 / 8 <? 536870913)%N = true.
+Proof. split; reflexivity. Qed.
